@@ -78,6 +78,7 @@ fn read_event(rng: &mut Rng) -> Value {
     let natural = if y > 99_999 { 6 } else if y > 9999 { 5 } else { 4 };
     forms.push(digs(y, natural));
     if natural < 6 { forms.push(digs(y, natural + 1)); }
+    if rng.chance(1, 6) { forms.push(digs(y, *rng.pick(&[7usize, 10, 18, 19, 20, 25, 39]))); }      // zero-padded far beyond the natural width
     if (1950..=2049).contains(&y) { forms.push(digs(y % 100, 2)); forms.push(digs(y % 100, 2)); }
     if (1900..=2899).contains(&y) { forms.push(digs(y - 1900, 3)); forms.push(digs(y - 1900, 3)); }
     let mut yt = rng.pick(&forms).clone();
@@ -87,7 +88,7 @@ fn read_event(rng: &mut Rng) -> Value {
         let a: u128 = *rng.pick(&[y as u128 + (1u128 << 64), y as u128 + (2u128 << 64), y as u128 + (1u128 << 63), y as u128 + (1u128 << 32), y as u128 + (1u128 << 31) * 10,
                                   10_000_000 + y as u128, 1u128 << 64, (1u128 << 64) - 1, 99_999_999_999_999_999_999, y as u128 + (1u128 << 96), y as u128 * 10_000_000]);
         let t = a.to_string();
-        if t.len() > 6 { yt = t.bytes().map(|b| b - b'0').collect(); }
+        if t.len() > 6 { yt = t.bytes().map(|b| b - b'0').collect(); if rng.chance(1, 3) { let mut z = vec![0u8; rng.range(1, 14) as usize]; z.extend(yt.iter()); yt = z; } }
     }
     let mo = rng.range(1, 12);
     let r = rng.range(1, dim(y, mo));
@@ -122,14 +123,16 @@ fn read_event(rng: &mut Rng) -> Value {
     t.push_str(&ws[2]);
     for x in &yt { t.push((b'0' + x) as char); }
     t.push_str(&ws[3]);
-    t.push_str(&format!("{:02}:{:02}", h, mi));
-    if secs { t.push_str(&format!(":{:02}", s)); }
+    // white space around the first colon and before the second one (obs-hour / obs-minute of RFC 2822 4.3)
+    let tws: Vec<String> = (0..3).map(|_| if rng.chance(1, 5) { rng.pick(&[" ", "\t", "  ", " \t "]).to_string() } else { String::new() }).collect();
+    t.push_str(&format!("{:02}{}:{}{:02}", h, tws[0], tws[1], mi));
+    if secs { t.push_str(&format!("{}:{:02}", tws[2], s)); }
     t.push_str(&ws[4]);
     t.push_str(&zone);
     t.push_str(&cm);
     let f = json!({"wd": wd, "d": d, "mo": mo, "yt": yt, "h": h, "mi": mi, "s": s, "zone": cps(&zone)});
-    let c = json!({"wkd": wkd, "dpad": dpad, "secs": secs, "ncase": ncase, "ws": ws.iter().map(|w| cps(w)).collect::<Vec<_>>(), "cm": cps(&cm)});
-    ev(if yt.len() > 6 { "parse2822_bigyear" } else { "parse2822" }, json!({"s": cps(&t), "f": f, "c": c}), || match DateTime::parse_from_rfc2822(&t) {
+    let c = json!({"wkd": wkd, "dpad": dpad, "secs": secs, "ncase": ncase, "ws": ws.iter().map(|w| cps(w)).collect::<Vec<_>>(), "cm": cps(&cm), "tws": tws.iter().map(|w| cps(w)).collect::<Vec<_>>()});
+    ev(if yt.len() > 6 && yt[..yt.len() - 6].iter().any(|&x| x != 0) { "parse2822_bigyear" } else { "parse2822" }, json!({"s": cps(&t), "f": f, "c": c}), || match DateTime::parse_from_rfc2822(&t) {
         Ok(b) => json!({"r": {"ok": proj_dt(&b)}}),
         Err(e) => json!({"r": {"err": format!("{:?}", e.kind())}}),
     })
